@@ -162,9 +162,9 @@ Definition ez_ops : Ops (option Z) := mkOps _ (Some 0%Z) (Some 1%Z) ez_add ez_mu
      PZero       exactly zero (neutral for +, absorbing for * and /),
      PNegBig     "a score with the -1e5 mask added" (absorbing for +, exp gives PZero: H_mask_kills),
      PVal s      a value computed from the input positions in s. *)
-Inductive prov : Type := PZero | PNegBig | PVal (s : list nat).
+Inductive prov : Type := PZero | PNegBig | PVal (s : list N).   (* ids are binary numbers: cheap comparison *)
 
-Definition punion (a b : list nat) : list nat := nodup Nat.eq_dec (a ++ b).
+Definition punion (a b : list N) : list N := nodup N.eq_dec (a ++ b).
 
 Definition padd (a b : prov) : prov :=
   match a, b with
@@ -197,11 +197,11 @@ Definition pfn (f : fn) (a : prov) : prov :=
 Definition prov_ops : Ops prov := mkOps _ PZero (PVal []) padd pmul pdiv pfn PNegBig.
 
 (* the input positions a scalar / vector / matrix depends on *)
-Definition pdeps (a : prov) : list nat := match a with PVal s => s | _ => [] end.
-Definition vdeps (v : list prov) : list nat := nodup Nat.eq_dec (flat_map pdeps v).
-Definition mdeps (m : list (list prov)) : list nat := nodup Nat.eq_dec (flat_map vdeps m).
-Definition tdeps (t : list (list (list prov))) : list nat := nodup Nat.eq_dec (flat_map mdeps t).
-Definition memb (x : nat) (s : list nat) : bool := existsb (Nat.eqb x) s.
+Definition pdeps (a : prov) : list N := match a with PVal s => s | _ => [] end.
+Definition vdeps (v : list prov) : list N := nodup N.eq_dec (flat_map pdeps v).
+Definition mdeps (m : list (list prov)) : list N := nodup N.eq_dec (flat_map vdeps m).
+Definition tdeps (t : list (list (list prov))) : list N := nodup N.eq_dec (flat_map mdeps t).
+Definition memb (x : nat) (s : list N) : bool := existsb (N.eqb (N.of_nat x)) s.
 
 (* a torch block that mixes all entries of the vector it acts on (nn.Linear, LayerNorm, an MLP):
    every one of the n outputs depends on every input of the vector *)
